@@ -230,6 +230,7 @@ struct C10 : Scenario {
 		std::string viol_clause, viol_sig, viol_detail;
 		bool dangerous_exists = false;
 		std::string pending_unlink;
+		std::vector<std::string> pending_mkdirs;
 		size_t last_link_len = (size_t) 1 << 40;
 		uint64_t mutating = 0;
 		auto flag = [&](const char *clause, const std::string &sig, const std::string &detail) {
@@ -257,14 +258,26 @@ struct C10 : Scenario {
 				if (!ok && (l.op == "chmod" || l.op == "utime" || l.op == "chown") && where == root) ok = true;
 				if (!ok) flag("C10.containment", "containment:" + l.op, "operation resolved outside the extraction root " + root + ": " + desc + " at " + where);
 			}
-			// dangerous symlinks last
+			// dangerous symlinks last: once one exists, the only operations still to come are those that create further
+			// deferred symlinks - the unlink of the placeholder right before its symlink(), and the tool's
+			// parent-directory preparation (mkdir of a prefix of that symlink's path)
 			if (!pending_unlink.empty()) {
 				if (!(l.op == "symlink" && l.path == pending_unlink))
 					flag("C10.dangerous_symlink_early", "order:" + l.op, "a dangerous symlink already exists but the run went on with " + desc);
 				pending_unlink.clear();
 			} else if (dangerous_exists && l.op != "symlink") {
 				if (l.op == "unlink") pending_unlink = l.path;
+				else if (l.op == "mkdir") pending_mkdirs.push_back(l.path);
 				else flag("C10.dangerous_symlink_early", "order:" + l.op, "a dangerous symlink already exists but the run went on with " + desc);
+			}
+			if (l.op == "symlink" && !pending_mkdirs.empty()) {
+				for (auto &d : pending_mkdirs) {
+					std::string dd = d;
+					while (!dd.empty() && dd.back() == '/') dd.pop_back();
+					if (!(l.path.size() > dd.size() && l.path.compare(0, dd.size(), dd) == 0 && l.path[dd.size()] == '/'))
+						flag("C10.dangerous_symlink_early", "order:mkdir", "a dangerous symlink already exists but the run went on with mkdir(" + printable(d) + "), which does not prepare the next symlink " + printable(l.path));
+				}
+				pending_mkdirs.clear();
 			}
 			if (l.op == "symlink" && dangerous(l.target)) {
 				if (!l.err) dangerous_exists = true;
